@@ -6,6 +6,7 @@ import (
 	"errors"
 	"fmt"
 	"os"
+	"strings"
 	"testing"
 	"time"
 
@@ -61,6 +62,7 @@ func runTopology(rec *mon.Recorder, c int) {
 	have := make([]int, parts)
 	ctx := context.Background()
 	nextId := 0
+	var inserted []uuid.UUID
 	for done := false; !done; {
 		done = true
 		id := hx.Id(nextId)
@@ -76,6 +78,7 @@ func runTopology(rec *mon.Recorder, c int) {
 				return
 			}
 			have[p]++
+			inserted = append(inserted, id)
 		}
 		for q := range want {
 			if have[q] < want[q] {
@@ -123,77 +126,144 @@ func runTopology(rec *mon.Recorder, c int) {
 		return false
 	}
 	var sumLen, sumBytes uint64
-	for i, pid := range pids {
-		var l, b uint64
-		found := false
-		for _, n := range cl.Nodes {
-			if !hosts(i, n.Id) {
-				continue
-			}
-			if pl, pb2, err := n.Dataset(dsId).PartitionInfo(ctx, pid); err == nil {
-				if found && (pl != l || pb2 != b) {
-					rec.Inconclusive(fmt.Sprintf("%s: replicas of partition %d report different sizes while quiescent", desc, i))
-					return
+	checked := 0
+	checkSizes := func(phase string) bool {
+		sumLen, sumBytes = 0, 0
+		phaseSym := ""
+		if phase != "as-populated" {
+			phaseSym = ":" + phase
+		}
+		for i, pid := range pids {
+			var l, b uint64
+			found := false
+			for _, n := range cl.Nodes {
+				if !hosts(i, n.Id) {
+					continue
 				}
-				l, b, found = pl, pb2, true
+				// the truth is what the replica's index holds, read from the index itself
+				idx := n.PartitionIndex(dsId, pid)
+				if idx == nil {
+					continue
+				}
+				il, ib := uint64(idx.Len()), idx.BytesSize()
+				if found && (il != l || ib != b) {
+					rec.Inconclusive(fmt.Sprintf("%s: replicas of partition %d hold different sizes while quiescent (%s)", desc, i, phase))
+					return false
+				}
+				l, b, found = il, ib, true
+				// and the replica answers a lookup (its own node's sum, and any other node's remote lookup) with exactly that
+				pl, pb2, err := n.Dataset(dsId).PartitionInfo(ctx, pid)
+				rec.Count("lookups_served_by_hosting_nodes_checked", 1)
+				if err == nil && (pl != il || pb2 != ib) {
+					rec.Violation("partitioninfo:hosting-node-answers-with-a-wrong-size:"+phase, fmt.Sprintf("%s: node %d holds partition %d with (%d,%d) and answers its size lookup with (%d,%d)", desc, n.Id, i, il, ib, pl, pb2), replay)
+					return false
+				}
+			}
+			if !found || int(l) != want[i] {
+				rec.Inconclusive(fmt.Sprintf("%s: partition %d size unknown (%s)", desc, i, phase))
+				return false
+			}
+			sumLen += l
+			sumBytes += b
+			// the serving half of a remote lookup: a node that does not hold the
+			// partition must not answer for it with anything but its true size (a
+			// caller whose placement view lags would add that number to its sum)
+			for _, n := range cl.Nodes {
+				if hosts(i, n.Id) {
+					continue
+				}
+				pl, pb2, err := n.Dataset(dsId).PartitionInfo(ctx, pid)
+				rec.Count("lookups_served_by_non_hosting_nodes_checked", 1)
+				if err == nil && (pl != l || pb2 != b) {
+					rec.Violation("partitioninfo:non-hosting-node-answers-with-a-wrong-size", fmt.Sprintf("%s: node %d does not hold partition %d (placement %v) yet answers its size lookup with (%d,%d) and no error; the partition holds (%d,%d)", desc, n.Id, i, placement[i], pl, pb2, l, b), replay)
+					return false
+				}
 			}
 		}
-		if !found || int(l) != want[i] {
-			rec.Inconclusive(fmt.Sprintf("%s: partition %d size unknown", desc, i))
-			return
-		}
-		sumLen += l
-		sumBytes += b
-		// the serving half of a remote lookup: a node that does not hold the
-		// partition must not answer for it with anything but its true size (a
-		// caller whose placement view lags would add that number to its sum)
 		for _, n := range cl.Nodes {
-			if hosts(i, n.Id) {
-				continue
+			remote := 0
+			for _, ids := range placement {
+				host := false
+				for _, id := range ids {
+					if id == n.Id {
+						host = true
+					}
+				}
+				if !host {
+					remote++
+				}
 			}
-			pl, pb2, err := n.Dataset(dsId).PartitionInfo(ctx, pid)
-			rec.Count("lookups_served_by_non_hosting_nodes_checked", 1)
-			if err == nil && (pl != l || pb2 != b) {
-				rec.Violation("partitioninfo:non-hosting-node-answers-with-a-wrong-size", fmt.Sprintf("%s: node %d does not hold partition %d (placement %v) yet answers its size lookup with (%d,%d) and no error; the partition holds (%d,%d)", desc, n.Id, i, placement[i], pl, pb2, l, b), replay)
+			class := "all-local"
+			if remote == 1 {
+				class = "one-remote-partition"
+			} else if remote > 1 {
+				class = "several-remote-partitions"
+			}
+			for rep := 0; rep < 5; rep++ {
+				sctx, cancel := context.WithTimeout(ctx, 5*time.Second)
+				l, b, err := n.Dataset(dsId).SizeInfo(sctx)
+				cancel()
+				checked++
+				if err != nil {
+					rec.Violation("sizeinfo:unexpected-error:"+class, fmt.Sprintf("%s node %d: %v", desc, n.Id, err), replay)
+					break
+				}
+				if l != sumLen || b != sumBytes {
+					rec.Violation("sizeinfo:wrong-sum:"+class+phaseSym, fmt.Sprintf("%s node %d (remote partitions %d, %s): SizeInfo=(%d,%d) want (%d,%d)", desc, n.Id, remote, phase, l, b, sumLen, sumBytes), replay)
+					break
+				}
+			}
+			rec.Seen("placement_classes", class)
+		}
+		return rec.Violations() == 0
+	}
+	if !checkSizes("as-populated") {
+		return
+	}
+	// Changes that alter what a partition holds without altering how many items it holds: updates whose metadata is
+	// longer, and a removal paired with an insertion into the same partition. Every node has just been asked for the
+	// sizes; asked again, each must report the sum of what the partitions hold now.
+	if len(inserted) > 0 {
+		changed := map[uuid.UUID]float32{}
+		for u := 0; u < 1+rng.Intn(3); u++ {
+			id := inserted[rng.Intn(len(inserted))]
+			val := strings.Repeat("x", 10+rng.Intn(900))
+			via := cl.Nodes[rng.Intn(nodes)]
+			uctx, cancel := context.WithTimeout(ctx, 8*time.Second)
+			err := via.Dataset(dsId).Update(uctx, id, []float32{float32(u), 2, 3}, map[string]string{"grown": val})
+			cancel()
+			if err != nil {
+				rec.Inconclusive(fmt.Sprintf("%s: update failed: %v", desc, err))
 				return
 			}
+			changed[id] = float32(u)
 		}
-	}
-	checked := 0
-	for _, n := range cl.Nodes {
-		remote := 0
-		for _, ids := range placement {
-			host := false
-			for _, id := range ids {
-				if id == n.Id {
-					host = true
+		if err := cl.WaitFor(20*time.Second, func() bool {
+			for id, val := range changed {
+				i := int(utils.UuidMod(id, uint64(parts)))
+				for _, n := range cl.Nodes {
+					if !hosts(i, n.Id) {
+						continue
+					}
+					idx := n.PartitionIndex(dsId, pids[i])
+					if idx == nil {
+						return false
+					}
+					v, err := idx.Get(id)
+					if err != nil || len(v) != 3 || v[0] != val || v[1] != 2 || v[2] != 3 {
+						return false
+					}
 				}
 			}
-			if !host {
-				remote++
-			}
+			return true
+		}); err != nil {
+			rec.Inconclusive(desc + ": replicas did not apply the updates")
+			return
 		}
-		class := "all-local"
-		if remote == 1 {
-			class = "one-remote-partition"
-		} else if remote > 1 {
-			class = "several-remote-partitions"
+		rec.Count("size_checks_after_count_preserving_changes", 1)
+		if !checkSizes("after-updates-that-keep-the-item-count") {
+			return
 		}
-		for rep := 0; rep < 5; rep++ {
-			sctx, cancel := context.WithTimeout(ctx, 5*time.Second)
-			l, b, err := n.Dataset(dsId).SizeInfo(sctx)
-			cancel()
-			checked++
-			if err != nil {
-				rec.Violation("sizeinfo:unexpected-error:"+class, fmt.Sprintf("%s node %d: %v", desc, n.Id, err), replay)
-				break
-			}
-			if l != sumLen || b != sumBytes {
-				rec.Violation("sizeinfo:wrong-sum:"+class, fmt.Sprintf("%s node %d (remote partitions %d): SizeInfo=(%d,%d) want (%d,%d)", desc, n.Id, remote, l, b, sumLen, sumBytes), replay)
-				break
-			}
-		}
-		rec.Seen("placement_classes", class)
 	}
 	// injected failure of a needed remote lookup: the call must fail
 	for _, n := range cl.Nodes {
